@@ -68,6 +68,12 @@ def configs(tier, seed):
                 out.append(dict(h="rowperm", op=name, key=f"rowperm/{name}/{''.join(map(str, perm))}/columns_keep_labels", ds=name, perm=list(perm), columns=True))
                 # ... or with row labels that repeat, as two tables glued together with pd.concat have them
                 out.append(dict(h="rowperm", op=name, key=f"rowperm/{name}/{''.join(map(str, perm))}/columns_repeated_labels", ds=name, perm=list(perm), columns=True, repeated=True))
+    # sparse exports (zero entries left out; one item has zero entries only and does not occur in the rows at all), imported with
+    # allow_missing_values: the left-out entries come back as zeros
+    for name in ("T2_r2", "r2_p3u", "T3d_r2"):
+        for header in ("names", "letters"):
+            for index in (True, False):
+                out.append(dict(h="sparse_roundtrip", op=name, key=f"sparse_roundtrip/{name}/index={int(index)}/{header}", ds=name, index=index, header=header))
     for index in (True, False):
         for rows in ("id", "rev"):
             out.append(dict(h="large", op="large", key=f"large/182x182/index={int(index)}/rows={rows}", ds="r2", n=182, index=index, rows=rows))
@@ -225,6 +231,27 @@ def run(cfg, w):
         for idx in np.ndindex(*dims.shape):
             w.ob(f"entry{list(idx)}", w.same(y.values[idx], X[idx]))
         w.ob_arr_eq("array_unchanged", x.values, X)
+        return
+    if h == "sparse_roundtrip":
+        # entries of the last item of the first dimension are all zero, one more entry elsewhere is zero
+        zero = [idx for idx in np.ndindex(*dims.shape) if idx[0] == dims.shape[0] - 1] + [tuple(0 for _ in dims.shape)]
+        for idx in np.ndindex(*dims.shape):
+            if idx in zero:
+                X[idx] = 0
+                x.values[idx] = 0
+            else:
+                w.assume(w.ne(X[idx], 0))
+        df = x.to_df(index=cfg["index"], sparse=True)
+        n2l = {sp[1]: sp[0] for sp in spec}
+        if cfg["header"] == "letters":
+            df = df.rename_axis(index=lambda n: n2l.get(n, n)) if cfg["index"] else df.rename(columns=n2l)
+        try:
+            y = FlodymArray.from_df(dims=build_dims(name), df=df, allow_missing_values=True)
+        except Exception as e:
+            w.ob("sparse_export_imports_with_allow_missing_values", False, info=f"{type(e).__name__}: {str(e)[:200]}")
+            return
+        for idx in np.ndindex(*dims.shape):
+            w.ob(f"entry{list(idx)}", w.same(y.values[idx], X[idx]) if idx not in zero else w.eq(y.values[idx], 0))
         return
     if h == "rowperm":
         # dims in the index, or dims in columns with the rows re-ordered the usual pandas way (old integer labels kept)
